@@ -1,6 +1,379 @@
-"""stub"""
-def stage_a_runs(ctx): return []
-def stage_a_record(ctx, res): pass
-def stage_b(ctx): pass
-def stage_c(ctx): pass
-def replay_cases(ctx, cases): pass
+"""C17, second half: the payload codecs (P2PCodec.tla) - version, getheaders, inv, addr, ping.
+
+Stage A  MC_P2PCodec: Parse(Build(v)) = Ok(v) and tightness over field boundary sets (counts 0,1,2,252,253,254
+         [thorough: 65535, 65536], nonces/heights/versions at 0, 2^31, 2^32-1, 2^63, 2^64-1, all six inventory
+         types, relay on/off, user agents of 0,1,12,252,253,300 bytes) with a scaled hash length.
+Stage B  Gen_P2PCodec: TLC evaluates Build at the real hash length; every row [k, v, bytes] is replayed: the
+         real builder (where it can express v) must produce the bytes - if it does, the codec speaks the
+         protocol's wire format and the real parser fed TLC's bytes must return v.
+Stage C  real build -> real parse round trips over boundary and seeded random values (counts crossing 252/253,
+         nonces 0..2^64-1, every inventory type, relay on/off, user agent as built and spliced: empty, 1, 252,
+         253, 300 bytes), each judged by TLC (Trace_P2PCodec).
+"""
+import json
+import os
+import random
+
+from .. import vlib
+
+UA = b"/bits:0.1.0/"
+LOCAL = b"::ffff:127.0.0.1"
+INV_NAMES = ["MSG_TX", "MSG_BLOCK", "MSG_FILTERED_BLOCK", "MSG_CMPCT_BLOCK", "MSG_WITNESS_TX", "MSG_WITNESS_BLOCK"]
+
+
+def _p2p():
+    import bits.p2p as p2p
+    return p2p
+
+
+def le(n, w):
+    """int -> little-endian byte list of width w ([] if it does not fit: never equal to an expected value)"""
+    try:
+        return list(int(n).to_bytes(w, "little"))
+    except (OverflowError, ValueError, TypeError):
+        return []
+
+
+def _bl(x):
+    if isinstance(x, (bytes, bytearray)):
+        return list(x)
+    if isinstance(x, str):
+        try:
+            return list(x.encode("latin1"))
+        except UnicodeError:
+            return []
+    return []
+
+
+def _hex(x):
+    try:
+        return list(bytes.fromhex(x))
+    except (ValueError, TypeError):
+        return []
+
+
+def _int(x, default=-1):
+    return x if isinstance(x, int) and not isinstance(x, bool) and -2**31 < x < 2**31 else default
+
+
+class Clock:
+    """Rebinds the time.time seen by bits.p2p (version_payload reads the clock)."""
+
+    def __init__(self, p2p, now):
+        self.p2p, self.now = p2p, now
+
+    def __enter__(self):
+        import types
+        self.old = self.p2p.time
+        fake = types.SimpleNamespace(**{k: getattr(self.old, k) for k in dir(self.old) if not k.startswith("__")})
+        fake.time = lambda: self.now
+        self.p2p.time = fake
+
+    def __exit__(self, *a):
+        self.p2p.time = self.old
+
+
+# ----------------------------------------------------------------------------- real round trips
+def norm_version(d):
+    if not isinstance(d, dict):
+        raise TypeError("not a dict")
+    r = d.get("relay", None)
+    return {"pv": le(d.get("protocol_version"), 4), "services": le(d.get("services"), 8), "timestamp": le(d.get("timestamp"), 8),
+            "recv_services": le(d.get("addr_recv_services"), 8), "recv_ip": _bl(d.get("addr_recv_ip_addr")),
+            "recv_port": _int(d.get("addr_recv_port")), "trans_services": le(d.get("addr_trans_services"), 8),
+            "trans_ip": _bl(d.get("addr_trans_ip_addr")), "trans_port": _int(d.get("addr_trans_port")),
+            "nonce": le(d.get("nonce"), 8), "ua": _bl(d.get("user_agent", b"")), "start_height": le(d.get("start_height"), 4),
+            "relay": 1 if r is True else 0 if r is False else 2}
+
+
+def norm_parsed(k, d):
+    p2p = _p2p()
+    if not isinstance(d, dict):
+        raise TypeError("not a dict")
+    if k == "ping":
+        return {"nonce": le(d.get("nonce"), 8)}
+    if k == "getheaders":
+        return {"pv": le(d.get("protocol_version"), 4), "n": _int(d.get("hash_count")),
+                "hashes": [_hex(h) for h in d.get("block_header_hashes", [])], "stop": _hex(d.get("stop_hash"))}
+    if k == "inv":
+        return {"n": _int(d.get("count")),
+                "items": [{"type": _int(p2p.INVENTORY_TYPE_ID.get(it.get("type_id"), -1)), "hash": _hex(it.get("hash"))} for it in d.get("inventory", [])]}
+    if k == "addr":
+        return {"addrs": [{"time": le(a.get("time"), 4), "services": _bl(a.get("services")), "ip": _bl(a.get("ip_addr")),
+                           "port": _int(a.get("port"))} for a in d.get("addrs", [])]}
+    raise KeyError(k)
+
+
+def build_real(k, v):
+    """value (JSON shape) -> payload bytes by the real builders"""
+    p2p = _p2p()
+    if k == "ping":
+        return p2p.ping_payload(int.from_bytes(bytes(v["nonce"]), "little"))
+    if k == "getheaders":
+        return p2p.getheaders_payload(int.from_bytes(bytes(v["pv"]), "little"), len(v["hashes"]), [bytes(h) for h in v["hashes"]], bytes(v["stop"]))
+    if k == "inv":
+        code_name = {c: n for n, c in p2p.INVENTORY_TYPE_ID.items()}
+        return p2p.inv_payload(len(v["items"]), [p2p.inventory(code_name[it["type"]], bytes(it["hash"])) for it in v["items"]])
+    if k == "addr":
+        return p2p.addr_payload(len(v["addrs"]), [p2p.network_ip_addr(int.from_bytes(bytes(a["time"]), "little"), bytes(a["services"]),
+                                                                        bytes(a["ip"]), a["port"]) for a in v["addrs"]])
+    if k == "version":
+        with Clock(p2p, int.from_bytes(bytes(v["timestamp"]), "little")):
+            return p2p.version_payload(int.from_bytes(bytes(v["start_height"]), "little"), v["recv_port"], v["trans_port"],
+                                       protocol_version=int.from_bytes(bytes(v["pv"]), "little"),
+                                       services=int.from_bytes(bytes(v["services"]), "little"), relay=bool(v["relay"]))
+    raise KeyError(k)
+
+
+PARSERS = {"ping": "parse_ping_payload", "getheaders": "parse_getheaders_payload", "inv": "parse_inv_payload",
+           "addr": "parse_addr_payload", "version": "parse_version_payload"}
+
+
+def parse_real(k, b):
+    p2p = _p2p()
+    d = getattr(p2p, PARSERS[k])(bytes(b))
+    return norm_version(d) if k == "version" else norm_parsed(k, d)
+
+
+def _try(fn, *a):
+    try:
+        return {"ok": True, "v": fn(*a)}
+    except Exception as e:  # noqa - the outcome is judged, not the class
+        return {"ok": False, "v": None, "cls": type(e).__name__}
+
+
+def roundtrip_event(k, v, ua=None):
+    """One stage-C event: real build, (optionally splice another user agent in), real parse."""
+    b = _try(build_real, k, v)
+    ev = {"k": k, "v": dict(v), "built": {"ok": b["ok"], "b": list(b["v"]) if b["ok"] else []}}
+    if k == "version":
+        ev["v"]["check_ua"] = ua is not None
+        ev["v"]["ua"] = list(ua) if ua is not None else []
+        if b["ok"] and ua is not None:
+            raw = bytes(b["v"])
+            if raw[80] != len(UA) or raw[81:81 + len(UA)] != UA:
+                return None         # the builder's user agent is not where/what we expect: nothing to splice
+            import bits
+            raw = raw[:80] + bits.compact_size_uint(len(ua)) + bytes(ua) + raw[81 + len(UA):]
+            ev["built"]["b"] = list(raw)
+    if b["ok"]:
+        p = _try(parse_real, k, bytes(ev["built"]["b"]))
+        ev["parsed"] = {"ok": p["ok"], "v": p["v"] if p["ok"] else _blank(k), "cls": p.get("cls")}
+    else:
+        ev["parsed"] = {"ok": False, "v": _blank(k)}
+        ev["built"]["cls"] = b.get("cls")
+    return ev
+
+
+def _blank(k):
+    return {"ping": {"nonce": []}, "getheaders": {"pv": [], "n": -1, "hashes": [], "stop": []}, "inv": {"n": -1, "items": []},
+            "addr": {"addrs": []}, "version": norm_version({})}[k]
+
+
+# ----------------------------------------------------------------------------- stage A
+def stage_a_runs(ctx):
+    cfg = "MC_P2PCodec_q.cfg" if ctx.tier == "quick" else "MC_P2PCodec_t.cfg"
+    return [(cfg, vlib.tlc_ok("MC_P2PCodec", cfg, workers=4, timeout=3000))]
+
+
+def stage_a_record(ctx, res):
+    for cfg, r in res:
+        ctx.stage_a(cfg, r, constants="HashLen scaled (2 quick / 1 thorough); counts {0,1,2,252,253,254}" +
+                    (" + {65535,65536}" if "_t" in cfg else "") + "; one initial state per case; RoundTrip, TightParse")
+
+
+# ----------------------------------------------------------------------------- stage B
+def stage_b(ctx):
+    out = os.path.join(vlib.WORK, "codec_rows.json")
+    os.makedirs(vlib.WORK, exist_ok=True)
+    r = vlib.tlc("Gen_P2PCodec", "Gen_P2PCodec.cfg", env={"OUT_FILE": out}, timeout=900)
+    if not any(isinstance(p, list) and p and p[0] == "ROWS" for p in r.prints):
+        raise vlib.MachineryFailure("Gen_P2PCodec did not write its rows:\n" + r.error_text())
+    rows = json.load(open(out))
+    os.remove(out)
+    expressible = lambda k, v: k != "version" or (bytes(v["ua"]) == UA and bytes(v["recv_ip"]) == LOCAL and bytes(v["trans_ip"]) == LOCAL
+                                                   and not any(v["nonce"]) and not any(v["recv_services"]) and v["trans_services"] == v["services"])
+    wire = {}       # codec -> [rows the real builder can express, of which it produced TLC's bytes]
+    for row in rows:
+        k, v = row["k"], row["v"]
+        if expressible(k, v):
+            b = _try(build_real, k, dict(v, relay=1 if v.get("relay") else 0) if k == "version" else v)
+            w = wire.setdefault(k, [0, 0])
+            w[0] += 1
+            w[1] += bool(b["ok"] and list(b["v"]) == row["b"])
+    judged = skipped = 0
+    for row in rows:
+        k, v = row["k"], row["v"]
+        w = wire.get(k, [0, 0])
+        if w[0] == 0 or w[0] != w[1]:
+            skipped += 1        # the real builder does not produce the protocol's bytes: round trip is judged in stage C only
+            continue
+        judged += 1
+        p = _try(parse_real, k, row["b"])
+        want = dict(v)
+        if k == "version":
+            want["relay"] = 1 if v["relay"] else 0
+        if k in ("getheaders", "inv"):
+            want["n"] = len(v["hashes"] if k == "getheaders" else v["items"])
+        ctx.nontrivial(("B", k, json.dumps(v, sort_keys=True)[:200], len(row["b"])))
+        if not p["ok"] or p["v"] != want:
+            ctx.violation(f"{k}-parse-wrong" if p["ok"] else f"{k}-parse-raised",
+                          dict(_classify(k, want), stage="B", codec=k, payload_hex=bytes(row["b"]).hex() if len(row["b"]) <= 12000 else None,
+                               value=v if len(row["b"]) <= 12000 else None, raised=p.get("cls"),
+                               parsed={kk: vv for kk, vv in (p["v"] or {}).items() if kk in ("relay", "n")} if p["ok"] else None))
+    ctx.stage_b("Gen_P2PCodec rows (real hash length)", judged, rows=len(rows), skipped_nonstandard_wire=skipped,
+                builder_agrees_with_spec={k: f"{w[1]}/{w[0]}" for k, w in wire.items()})
+
+
+def _classify(k, v):
+    """classifier fields of a codec case (for known-finding matchers / the evidence)"""
+    if k == "version":
+        return {"ua_len": len(v.get("ua") or []) if v.get("check_ua", True) else len(UA), "relay": v["relay"]}
+    if k == "getheaders":
+        return {"count": len(v["hashes"])}
+    if k == "inv":
+        return {"count": len(v["items"])}
+    if k == "addr":
+        return {"count": len(v["addrs"])}
+    return {"nonce_bytes": len(bytes(v["nonce"]).rstrip(b"\x00"))}
+
+
+# ----------------------------------------------------------------------------- stage C
+def _cases(ctx):
+    rnd = random.Random(ctx.seed * 2654435761 % 2**32 + 1717)
+    scale = 1 if ctx.tier == "quick" else 25
+    C = []
+    h32 = lambda: list(rnd.randbytes(32))
+    nonces = [0, 1, 255, 256, 2**31 - 1, 2**31, 2**32 - 1, 2**32, 2**63 - 1, 2**63, 2**64 - 1] + [rnd.getrandbits(64) for _ in range(40 * scale)] \
+        + [rnd.getrandbits(rnd.randint(1, 64)) for _ in range(40 * scale)]
+    for n in nonces:
+        C.append(("ping", {"nonce": le(n, 8)}, None))
+    counts = [0, 1, 2, 3, 100, 251, 252, 253, 254, 255, 256, 300] + [rnd.randint(0, 400) for _ in range(6 * scale)]
+    for n in counts:
+        for pv in (70015, rnd.choice([0, 1, 2**31, 2**32 - 1, 60002])):
+            C.append(("getheaders", {"pv": le(pv, 4), "n": n, "hashes": [h32() for _ in range(n)], "stop": rnd.choice([[0] * 32, h32()])}, None))
+    p2p = _p2p()
+    codes = [p2p.INVENTORY_TYPE_ID[nm] for nm in INV_NAMES]
+    for code in codes:                      # every inventory type on its own
+        C.append(("inv", {"n": 1, "items": [{"type": code, "hash": h32()}]}, None))
+    for n in counts:
+        C.append(("inv", {"n": n, "items": [{"type": rnd.choice(codes), "hash": h32()} for _ in range(n)]}, None))
+    for n in counts:
+        C.append(("addr", {"addrs": [{"time": le(rnd.choice([0, 1, 2**31, 2**32 - 1, rnd.getrandbits(32)]), 4), "services": list(rnd.randbytes(8)),
+                                      "ip": list(rnd.randbytes(16)), "port": rnd.choice([0, 8333, 65535, rnd.randint(0, 65535)])} for _ in range(n)]}, None))
+    uas = [None, b"", b"/", bytes(rnd.randbytes(12)), bytes(rnd.randbytes(252)), bytes(rnd.randbytes(253)), bytes(rnd.randbytes(300)), b"/Satoshi:23.0.0/"]
+    for relay in (1, 0):
+        for ua in uas:
+            for _ in range(2 * scale):
+                v = {"pv": le(rnd.choice([70015, 70016, 0, 2**32 - 1, 209]), 4), "services": le(rnd.choice([0, 1, 9, 1033, 2**63, 2**64 - 1]), 8),
+                     "timestamp": le(rnd.choice([0, 1700000000, 2**32, 2**63]), 8), "recv_port": rnd.choice([0, 8333, 18444, 65535]),
+                     "trans_port": rnd.choice([0, 8333, 54321, 65535]), "start_height": le(rnd.choice([0, 1, 840000, 2**31, 2**32 - 1]), 4), "relay": relay}
+                C.append(("version", v, ua))
+    return C
+
+
+def _validate(ctx, evs, name, record=True):
+    slim = [{"id": e["id"], "k": e["k"], "v": e["v"], "built": {"ok": e["built"]["ok"], "b": e["built"]["b"]},
+             "parsed": {"ok": e["parsed"]["ok"], "v": e["parsed"]["v"]}} for e in evs]
+    verdicts, stats = vlib.validate_events("Trace_P2PCodec", slim, native=True, chunk=max(60, len(slim) // 12 + 1), jobs=12, tag="codec")
+    bad = 0
+    for e in evs:
+        v = verdicts[e["id"]]
+        if v == "ok":
+            continue
+        if v.startswith("machinery"):
+            raise vlib.MachineryFailure(f"C17 codec rig: {v}: {json.dumps(e['v'])[:300]}")
+        bad += 1
+        small = len(e["built"]["b"]) <= 600
+        ctx.violation(v, dict(_classify(e["k"], e["v"]), stage="C", codec=e["k"], value=e["v"] if len(e["built"]["b"]) <= 12000 else None, ua_hex=e.get("ua_hex"),
+                              seed_case=e.get("case_no"), payload_hex=bytes(e["built"]["b"]).hex() if small else None,
+                              raised=e["parsed"].get("cls") or e["built"].get("cls"),
+                              parsed=e["parsed"]["v"] if small and e["parsed"]["ok"] else None))
+    if record:
+        ctx.stage_c(name, len(evs), stats, rejected=bad)
+    return verdicts
+
+
+def stage_c(ctx):
+    evs = []
+    for i, (k, v, ua) in enumerate(_cases(ctx)):
+        ev = roundtrip_event(k, v, ua)
+        if ev is None:
+            continue
+        ev["id"], ev["case_no"], ev["ua_hex"] = len(evs), i, ua.hex() if ua is not None else None
+        evs.append(ev)
+        c = _classify(k, ev["v"])
+        if c.get("count", 0) >= 253 or c.get("nonce_bytes", 0) > 4 or (k == "version" and (c["relay"] == 0 or ua is not None)):
+            ctx.nontrivial(("C", k, json.dumps(ev["v"], sort_keys=True)[:300]))
+    verdicts = _validate(ctx, evs, "Trace_P2PCodec (real build -> parse round trips)")
+    ok = [e for e in evs if verdicts[e["id"]] == "ok" and len(e["built"]["b"]) < 200]
+    if ok:
+        e = ok[len(ok) // 2]
+        ctx.sample({"stage": "C", "codec": e["k"], "value": e["v"], "payload_hex": bytes(e["built"]["b"]).hex()})
+    _binding_selftest(ctx, evs, verdicts)
+
+
+def _binding_selftest(ctx, evs, verdicts):
+    import copy
+    muts, names = [], []
+    for k in ("ping", "getheaders", "inv", "addr", "version"):
+        base = next((e for e in evs if e["k"] == k and verdicts[e["id"]] == "ok" and _classify(k, e["v"]).get("count", 1) >= 1), None)
+        if base is None:
+            continue
+        m = copy.deepcopy(base)
+        if k == "ping":
+            m["parsed"]["v"]["nonce"][7] ^= 128
+        elif k == "getheaders":
+            m["parsed"]["v"]["hashes"] = m["parsed"]["v"]["hashes"][1:] + [m["parsed"]["v"]["hashes"][0]]
+            if len(m["parsed"]["v"]["hashes"]) == 1:
+                m["parsed"]["v"]["hashes"][0][0] ^= 1
+        elif k == "inv":
+            m["parsed"]["v"]["items"][0]["type"] = 1 if m["parsed"]["v"]["items"][0]["type"] != 1 else 2
+        elif k == "addr":
+            m["parsed"]["v"]["addrs"][0]["port"] ^= 1
+        else:
+            m["parsed"]["v"]["relay"] = 2
+        muts.append(m)
+        names.append(k)
+    for i, m in enumerate(muts):
+        m["id"] = i
+    if not muts:
+        ctx.cov["binding_selftest_codec"] = "skipped: no accepted round trip"
+        return
+    v = _validate(ctx, muts, "selftest", record=False) if False else vlib.validate_events(
+        "Trace_P2PCodec", [{"id": e["id"], "k": e["k"], "v": e["v"], "built": {"ok": e["built"]["ok"], "b": e["built"]["b"]},
+                            "parsed": {"ok": e["parsed"]["ok"], "v": e["parsed"]["v"]}} for e in muts], native=True, tag="codecself")[0]
+    got = {names[i]: v[i] for i in range(len(muts))}
+    if any(x == "ok" for x in got.values()):
+        raise vlib.MachineryFailure(f"binding self-test (codecs): a corrupted parse result was accepted: {got}")
+    ctx.cov["binding_selftest_codec"] = got
+
+
+def replay_cases(ctx, cases):
+    evs = []
+    for c in cases:
+        if c.get("stage") == "B":
+            k = c["codec"]
+            if c.get("payload_hex") is None:
+                continue
+            p = _try(parse_real, k, bytes.fromhex(c["payload_hex"]))
+            v = dict(c["value"])
+            if k == "version":
+                v = {kk: v[kk] for kk in ("pv", "services", "timestamp", "recv_port", "trans_port", "start_height")}
+                v["relay"] = 1 if c["value"]["relay"] else 0
+                v["check_ua"], v["ua"] = True, c["value"]["ua"]
+            elif k == "getheaders":
+                v["n"] = len(v["hashes"])
+            elif k == "inv":
+                v["n"] = len(v["items"])
+            evs.append({"k": k, "v": v, "built": {"ok": True, "b": list(bytes.fromhex(c["payload_hex"]))},
+                        "parsed": {"ok": p["ok"], "v": p["v"] if p["ok"] else _blank(k), "cls": p.get("cls")}})
+        elif c.get("value") is not None:
+            v = {kk: vv for kk, vv in c["value"].items() if kk not in ("check_ua", "ua")} if c["codec"] == "version" else c["value"]
+            ev = roundtrip_event(c["codec"], v, bytes.fromhex(c["ua_hex"]) if c.get("ua_hex") is not None else None)
+            if ev:
+                evs.append(ev)
+    for i, e in enumerate(evs):
+        e["id"] = i
+    if evs:
+        _validate(ctx, evs, "replay (codecs)")
